@@ -32,7 +32,8 @@ Record dist := mkDist {
   dversion : option version;
   dvtext : string;          (* str(version) as the implementation prints it *)
   dreqs : list req;
-  dmeta : bool
+  dmeta : bool;
+  dsource : bool            (* metadata.origin is a SourceRepository (a project of a local source tree) *)
 }.
 
 Record node := mkNode {
